@@ -269,6 +269,27 @@ def build_doc(spec):
     return doc
 
 
+def top_level_ids(doc):
+    out = set()
+    for k, v in vars(doc).items():
+        if isinstance(v, list) and k not in ("networks", "includes"):
+            for x in v:
+                if hasattr(x, "id"):
+                    out.add("%s:%s" % (k, x.id))
+    return out
+
+
+def roundtrip_missing(doc, path):
+    """a write that returned normally must have produced a file that gives every top-level component back"""
+    try:
+        back = loaders.NeuroMLHdf5Loader.load(path)
+        return sorted(top_level_ids(doc) - top_level_ids(back))[:20]
+    except BaseException as e:  # noqa: BLE001
+        return ["<load failed: %s>" % type(e).__name__]
+    finally:
+        cleanup_handles()
+
+
 def remove_cause(doc):
     """for natural failures: take out what the format cannot hold, so that the retry has no reason to fail"""
     if not isinstance(doc, neuroml.NeuroMLDocument):
@@ -286,6 +307,8 @@ def remove_cause(doc):
         for ep in n.electrical_projections:
             for c in ep.electrical_connections:
                 c.synapse = "gj0"
+    if len(doc.iaf_cells) > 200:
+        doc.iaf_cells = doc.iaf_cells[:5]  # embedded XML above the 64 kB an HDF5 attribute holds: shrink
     doc.networks = doc.networks[:1]  # the HDF5 layout holds one network
     doc.morphology = []
 
@@ -528,6 +551,8 @@ def observe(op, fault_at, kind):
         if fault_at is None:
             op.after_call()
             op.ref_output = op.output(res)
+            if op.op == "h5_write_embed" and op.spec.get("or_roundtrip"):
+                rec["roundtrip_missing"] = roundtrip_missing(op.doc, op.path("out.nml.h5"))
     except BaseException as e:  # noqa: BLE001 - SystemExit from the loaders included
         INJ.active = False
         exc = e
@@ -594,7 +619,8 @@ def run_op(spec):
     try:
         op = Op(spec, tmp)
         dry = observe(op, None, "OSError")
-        out = {"op": spec["op"], "doc": spec.get("doc", {}), "dry": dry, "faults": [], "must_raise": spec.get("must_raise", False)}
+        out = {"op": spec["op"], "doc": spec.get("doc", {}), "dry": dry, "faults": [], "must_raise": spec.get("must_raise", False),
+               "or_roundtrip": spec.get("or_roundtrip", False)}
         n = dry["ncalls"]
         want = spec.get("faults", "all")
         if want == "all":
